@@ -226,8 +226,10 @@ func (obj JsonWebSignature) CompactSerialize() (string, error) {
 
 // FullSerialize serializes an object using the full JSON serialization format.
 func (obj JsonWebSignature) FullSerialize() string {
+	// The "payload" member is required (RFC 7515, section 7.2.1), also for an
+	// empty (nil) payload; newBuffer(nil) would drop it.
 	raw := rawJsonWebSignature{
-		Payload: newBuffer(obj.payload),
+		Payload: &byteBuffer{data: obj.payload},
 	}
 
 	if len(obj.Signatures) == 1 {
